@@ -1,2 +1,141 @@
--- driver stub for C11: replaced by the real line-protocol driver
-def main : IO Unit := pure ()
+import Bermuda.Model.Json
+import Bermuda.Model.Select
+import Bermuda.Spec.C11
+open Lean Bermuda
+
+/-! Line-protocol driver for C11. One request per triangle:
+`{"cells":[...], "ops":[{"op":..., args..., "impl": <implementation output>}, ...]}` →
+`{"t": {"ok":cells}|{"err":..}, "results":[{"model":..., "spec":...}, ...]}`. -/
+
+def optField (j : Json) (k : String) : Option Json :=
+  match j.getObjVal? k with
+  | .ok v => if v.isNull then none else some v
+  | .error _ => none
+
+def optDateF (j : Json) (k : String) : Except String (Option Date) :=
+  match optField j k with
+  | some v => (Date.fromJson v).map some
+  | none => .ok none
+
+def optRatF (j : Json) (k : String) : Except String (Option Rat) :=
+  match optField j k with
+  | some v => (ratFromJson v).map some
+  | none => .ok none
+
+def strList (j : Json) : Except String (List String) := do
+  (← j.getArr?).toList.mapM (·.getStr?)
+
+def clipArgs (j : Json) : Except String ClipFull := do
+  let unit ← match optField j "unit" with
+    | some u => do pure (LagUnit.parse? (← u.getStr?))
+    | none => pure (some LagUnit.month)
+  return { minEval := ← optDateF j "minEval", maxEval := ← optDateF j "maxEval",
+           minPeriod := ← optDateF j "minPeriod", maxPeriod := ← optDateF j "maxPeriod",
+           minDev := ← optRatF j "minDev", maxDev := ← optRatF j "maxDev", unit := unit }
+
+def dateIdx (j : Json) : Except String DateIdx := do
+  match j with
+  | .str _ => return .bad
+  | _ =>
+    match j.getObjVal? "d" with
+    | .ok d => return .scalar (← Date.fromJson d)
+    | .error _ =>
+      let a ← (← j.getObjVal? "s").getArr?
+      if a.size != 2 then throw "slice: want [start, stop]"
+      return .slice (← optFromJson Date.fromJson a[0]!) (← optFromJson Date.fromJson a[1]!)
+
+def metaIdx (j : Json) : Except String MetaIdx := do
+  if j.isNull then return .none
+  match j with
+  | .str _ => return .all
+  | _ => return .is (← Metadata.fromJson (← j.getObjVal? "m"))
+
+def mvalsToJson (k : List MVal) : Json := Json.arr (k.map MVal.toJson).toArray
+def mvalsFromJson (j : Json) : Except String (List MVal) := do (← j.getArr?).toList.mapM MVal.fromJson
+
+def groupsToJson {κ} (f : κ → Json) (g : List (κ × List Cell)) : Json :=
+  Json.arr (g.map fun p => Json.arr #[f p.1, cellsToJson p.2]).toArray
+
+def groupsFromJson {κ} (f : Json → Except String κ) (j : Json) : Except String (List (κ × List Cell)) := do
+  (← j.getArr?).toList.mapM fun e => do
+    let a ← e.getArr?
+    if a.size != 2 then throw "group: want [key, cells]"
+    return (← f a[0]!, ← cellsFromJson a[1]!)
+
+def itemToJson : List Cell ⊕ Cell → Json
+  | .inl t => Json.mkObj [("t", cellsToJson t)]
+  | .inr c => Json.mkObj [("c", c.toJson)]
+
+def itemFromJson (j : Json) : Except String (List Cell ⊕ Cell) :=
+  match j.getObjVal? "t" with
+  | .ok t => (cellsFromJson t).map .inl
+  | .error _ => do return .inr (← Cell.fromJson (← j.getObjVal? "c"))
+
+/-- the implementation's output when it did not raise: `impl = {"ok": x}` -/
+def implOk (j : Json) : Option Json :=
+  match j.getObjVal? "impl" with
+  | .ok v => match v.getObjVal? "ok" with
+    | .ok x => some x
+    | .error _ => none
+  | .error _ => none
+
+def specOn {α} (j : Json) (parse : Json → Except String α) (spec : α → Bool) : Except String Json :=
+  match implOk j with
+  | some x => do return Json.bool (spec (← parse x))
+  | none => .ok Json.null
+
+def result (model spec : Json) : Json := Json.mkObj [("model", model), ("spec", spec)]
+
+def handleOp (t : List Cell) (j : Json) : Except String Json := do
+  match (← (← j.getObjVal? "op").getStr?) with
+  | "clip" =>
+    let a ← clipArgs j
+    return result (exceptToJson cellsToJson (Triangle.clipFull t a))
+      (← specOn j cellsFromJson (Spec.C11.clipSpec t a))
+  | "filter" =>
+    let mask ← (← (← j.getObjVal? "mask").getArr?).toList.mapM (·.getBool?)
+    return result (exceptToJson cellsToJson (Triangle.filterMask t mask))
+      (← specOn j cellsFromJson (fun out => out == maskKeep t mask))
+  | "partition" =>
+    let a ← cellsFromJson (← j.getObjVal? "a")
+    let b ← cellsFromJson (← j.getObjVal? "b")
+    return result Json.null (Json.bool (Spec.C11.partitions t a b))
+  | "select" =>
+    let keys ← strList (← j.getObjVal? "keys")
+    return result (exceptToJson cellsToJson (Triangle.select t keys))
+      (← specOn j cellsFromJson (Spec.C11.selectSpec t keys))
+  | "rightEdge" =>
+    return result (exceptToJson cellsToJson (Triangle.rightEdge t))
+      (← specOn j cellsFromJson (Spec.C11.rightEdgeSpec t))
+  | "slices" =>
+    return result (groupsToJson Metadata.toJson (Triangle.slices t))
+      (← specOn j (groupsFromJson Metadata.fromJson) (Spec.C11.slicesSpec t))
+  | "split" =>
+    let keys ← strList (← j.getObjVal? "keys")
+    return result (exceptToJson (groupsToJson mvalsToJson) (Triangle.split t keys))
+      (← specOn j (groupsFromJson mvalsFromJson) (Spec.C11.splitSpec t keys))
+  | "getItem" =>
+    let p ← dateIdx (← j.getObjVal? "p")
+    let e ← dateIdx (← j.getObjVal? "e")
+    let m ← metaIdx (← j.getObjVal? "m")
+    return result (exceptToJson itemToJson (Triangle.getItem t p e m))
+      (← specOn j itemFromJson (Spec.C11.getItemSpec t p e m))
+  | "extract" =>
+    let f ← (← j.getObjVal? "field").getStr?
+    return result (Json.arr ((Triangle.extract t f).map Val.toJson).toArray)
+      (← specOn j (fun x => do (← x.getArr?).toList.mapM Val.fromJson) (Spec.C11.extractSpec t f))
+  | "extractOrd" =>
+    return result (Json.arr ((Triangle.extractWith t (fun c => c.ev.ordinal)).map
+      (fun (i : Int) => Json.num (JsonNumber.fromInt i))).toArray) Json.null
+  | o => throw s!"unknown op {o}"
+
+def handle (j : Json) : Except String Json := do
+  let cells ← cellsFromJson (← j.getObjVal? "cells")
+  let ops ← (← j.getObjVal? "ops").getArr?
+  match Triangle.ofCells cells with
+  | .error e => return Json.mkObj [("t", Json.mkObj [("err", Json.str e.name)]), ("results", Json.arr #[])]
+  | .ok t =>
+    let rs ← ops.toList.mapM (handleOp t)
+    return Json.mkObj [("t", Json.mkObj [("ok", cellsToJson t)]), ("results", Json.arr rs.toArray)]
+
+def main : IO Unit := serve handle
